@@ -324,6 +324,94 @@ Section Prims.
   Qed.
 End Prims.
 
+(* ---------- DecryptKey does not panic on well-typed kdfparams (the positive half of the refuted clause) ---------- *)
+Section NoPanic.
+  Variable kdf : kdf_alg -> bytes -> bytes -> Z -> pres.
+  Variable aes_ctr : bytes -> bytes -> bytes -> pres.
+  Variable aes_cbc_dec : bytes -> bytes -> bytes -> pres.
+  Variable H : bytes -> bytes.
+  Variable pub_addr : bytes -> bytes.
+
+  (* every kdfparams member the code type-asserts has the asserted JSON type *)
+  Definition kdfparams_typed (f : keyfile) : Prop :=
+    (exists s, kp_salt f = JStr s) /\ (exists b z, kp_dklen f = JNum b z) /\
+    (exists b z, kp_n f = JNum b z) /\ (exists b z, kp_r f = JNum b z) /\ (exists b z, kp_p f = JNum b z) /\
+    (exists b z, kp_c f = JNum b z) /\ (exists s, kp_prf f = JStr s).
+  (* the primitives return or fail, and a returned key has at least 32 bytes of capacity *)
+  Definition prims_total : Prop :=
+    (forall a p s d, kdf a p s d <> PPanic) /\ (forall a p s d o, kdf a p s d = POk o -> (32 <= length o)%nat) /\
+    (forall k i x, aes_ctr k i x <> PPanic) /\ (forall k i x, aes_cbc_dec k i x <> PPanic).
+
+  Lemma get_kdf_key_no_panic f kdfname auth :
+    kdfparams_typed f -> prims_total ->
+    get_kdf_key kdf f kdfname auth <> Panic /\
+    (forall d, get_kdf_key kdf f kdfname auth = Ok d -> (32 <= length d)%nat).
+  Proof.
+    intros ((s & Es) & (b1 & z1 & E1) & (b2 & z2 & E2) & (b3 & z3 & E3) & (b4 & z4 & E4) & (b5 & z5 & E5) & (s2 & E6))
+           (KP & KL & _ & _).
+    unfold get_kdf_key. rewrite Es, E1, E2, E3, E4, E5, E6. cbn [assert_string ensure_int].
+    destruct (hex_decode s) as [salt|]; [|split; [discriminate|intros d Ed; discriminate]].
+    destruct (bytes_eqb kdfname ascii_scrypt).
+    - destruct (kdf (KScrypt z2 z3 z4) auth salt z1) eqn:K; split; try discriminate.
+      + intros d Ed. injection Ed as <-. eapply KL; eassumption.
+      + exfalso. eapply KP; eassumption.
+    - destruct (bytes_eqb kdfname ascii_pbkdf2); [|split; [discriminate|intros d Ed; discriminate]].
+      destruct (bytes_eqb s2 ascii_hmac_sha256); [|split; [discriminate|intros d Ed; discriminate]].
+      destruct (kdf (KPbkdf2 z5) auth salt z1) eqn:K; split; try discriminate.
+      + intros d Ed. injection Ed as <-. eapply KL; eassumption.
+      + exfalso. eapply KP; eassumption.
+  Qed.
+
+  Lemma slice_some lo hi b : (hi <= length b)%nat -> exists x, slice lo hi b = Some x.
+  Proof. intros L. unfold slice. destruct (Nat.leb_spec hi (length b)); [eauto|lia]. Qed.
+
+  Lemma check_mac_no_panic f machex ivhex cthex kdfname auth :
+    kdfparams_typed f -> prims_total ->
+    check_mac kdf H f machex ivhex cthex kdfname auth <> Panic /\
+    (forall d iv ct, check_mac kdf H f machex ivhex cthex kdfname auth = Ok (d, iv, ct) -> (32 <= length d)%nat).
+  Proof.
+    intros T P. destruct (get_kdf_key_no_panic f kdfname auth T P) as [NP Len].
+    unfold check_mac.
+    destruct (hex_decode machex); [|split; [discriminate|intros; discriminate]].
+    destruct (hex_decode ivhex); [|split; [discriminate|intros; discriminate]].
+    destruct (hex_decode cthex); [|split; [discriminate|intros; discriminate]].
+    destruct (get_kdf_key kdf f kdfname auth) as [d| |] eqn:G; [|split; [discriminate|intros; discriminate]|contradiction].
+    specialize (Len d eq_refl). destruct (slice_some 16 32 d Len) as (mk & ->).
+    destruct (bytes_eqb (H (mk ++ b1)) b); split; try discriminate.
+    intros d' iv ct E. injection E as <- _ _. exact Len.
+  Qed.
+
+  Theorem decrypt_no_panic f auth :
+    kdfparams_typed f -> prims_total -> decrypt_key kdf aes_ctr aes_cbc_dec H pub_addr f auth <> Panic.
+  Proof.
+    intros T P. pose proof P as (_ & _ & CTR & CBC).
+    unfold decrypt_key.
+    destruct (match as_string (kf_address f), as_string (kf_id f), as_string (kf_cipher f), as_string (kf_ciphertext f),
+                    as_string (kf_iv f), as_string (kf_kdf f), as_string (kf_mac f) with
+              | Some _, Some _, Some cipher, Some cthex, Some ivhex, Some kdfname, Some machex =>
+                  if as_obj_ok (kf_crypto f) && as_obj_ok (kf_cipherparams f) && as_obj_ok (kf_kdfparams f)
+                  then Some (cipher, cthex, ivhex, kdfname, machex) else None
+              | _, _, _, _, _, _, _ => None end) as [[[[[cipher cthex] ivhex] kdfname] machex]|]; [|discriminate].
+    destruct (check_mac_no_panic f machex ivhex cthex kdfname auth T P) as [NP Len].
+    assert (Tail : forall (k : bytes -> bytes -> bytes -> pres) (g : bytes -> bytes),
+              (forall a b c, k a b c <> PPanic) ->
+              match match check_mac kdf H f machex ivhex cthex kdfname auth with
+                    | Ok (d, iv, ct) => match slice 0 16 d with Some x => of_pres (k (g x) iv ct) | None => Panic end
+                    | Err => Err | Panic => Panic end with
+              | Ok kb => Ok (kb, pub_addr kb) | Err => Err | Panic => Panic end <> Panic).
+    { intros k g NPk. destruct (check_mac kdf H f machex ivhex cthex kdfname auth) as [[[d iv] ct]| |] eqn:C; try discriminate; [|contradiction].
+      specialize (Len d iv ct eq_refl). destruct (slice_some 0 16 d ltac:(lia)) as (x & ->).
+      specialize (NPk (g x) iv ct). destruct (k (g x) iv ct); cbn; try discriminate. contradiction. }
+    destruct (match kf_version_exact f with JStr s => bytes_eqb s ascii_1 | _ => false end).
+    - destruct (as_string (kf_version f)); [|discriminate].
+      apply (Tail aes_cbc_dec (fun x => firstn 16 (H x)) CBC).
+    - destruct (as_int (kf_version f)); [|discriminate].
+      destruct (negb (Z.eqb z 3)); [discriminate|].
+      destruct (negb (bytes_eqb cipher ascii_aes_128_ctr)); [discriminate|].
+      apply (Tail aes_ctr (fun x => x) CTR).
+  Qed.
+End NoPanic.
+
 (* ---------- the KeyStore lock-state machine: statements over every history ---------- *)
 (* the (account, passphrase) an operation authenticates with *)
 Definition op_auth (op : ks_op) : option (nat * bytes) :=
